@@ -92,7 +92,7 @@ func (c *pcase) buildErr() (err error, isS bool, parts []string, multi bool) {
 	switch c.errKind {
 	case "nil":
 		return nil, false, nil, false
-	case "new", "canceled", "wrapcanceled", "pkgcanceled", "deadline", "wrapdeadline", "long":
+	case "new", "empty", "canceled", "wrapcanceled", "pkgcanceled", "deadline", "wrapdeadline", "long":
 		return errFromText(c.errText[0]), false, []string{c.errText[0]}, false
 	case "sentinel":
 		return sentinel, true, []string{sentinel.Error()}, false
@@ -102,7 +102,7 @@ func (c *pcase) buildErr() (err error, isS bool, parts []string, multi bool) {
 	case "wrappkg":
 		e := pkgerrors.Wrap(sentinel, c.errText[0])
 		return e, true, []string{c.errText[0] + ": " + sentinel.Error()}, false
-	case "custom":
+	case "custom", "customempty":
 		return &customErr{c.errText[0]}, true, []string{c.errText[0]}, false
 	case "multi", "longmulti":
 		me := &multierror.Error{}
@@ -1130,8 +1130,10 @@ func genLong(out *wh.Out, rng *wh.Rng, n int) {
 	env.close()
 }
 
+// "empty" / "customempty": an error whose text is the empty string (errors.New(""), a custom type) is an error like any other:
+// what decides is `err != nil`, not the text
 var errKinds = []string{"nil", "new", "sentinel", "wrapw", "wrappkg", "custom", "multi",
-	"canceled", "wrapcanceled", "pkgcanceled", "deadline", "wrapdeadline"}
+	"canceled", "wrapcanceled", "pkgcanceled", "deadline", "wrapdeadline", "empty", "customempty"}
 
 func (c *pcase) fillErr(r *wh.Rng, kind string) {
 	c.errKind = kind
@@ -1147,6 +1149,8 @@ func (c *pcase) fillErr(r *wh.Rng, kind string) {
 			c.errText = append(c.errText, "part"+strconv.Itoa(i)+" "+longText(r, 200+r.Intn(600)))
 			c.partS = append(c.partS, false)
 		}
+	case "empty", "customempty":
+		c.errText = []string{""}
 	case "canceled":
 		c.errText = []string{"context canceled"}
 	case "deadline":
